@@ -79,7 +79,7 @@ type WOpts struct {
 }
 
 var WireFeatures = []string{"bind", "bind-value-impl", "value", "ivalue", "struct", "struct-fields", "struct-value-consumer", "fieldsof", "fieldsof-value", "fieldsof-ptr",
-	"sets", "nested-sets", "inline-sets", "err", "args", "unused-arg", "multi-file", "ext", "bind-foreign-ctor", "bind-split-set", "multi-result"}
+	"sets", "nested-sets", "inline-sets", "inline-sets-deep", "struct-unexported-field", "err", "args", "unused-arg", "multi-file", "ext", "bind-foreign-ctor", "bind-split-set", "multi-result"}
 
 func WAllowAll(except ...string) map[string]bool {
 	m := map[string]bool{}
@@ -380,7 +380,11 @@ func (g *wgen) genStruct() {
 			break
 		}
 		seen[t] = true
-		s.Fields = append(s.Fields, Field{Name: "F" + string(rune('A'+i)), Type: t})
+		fname := "F" + string(rune('A'+i))
+		if g.want("struct-unexported-field", "unexpfield", 30) {
+			fname = "f" + string(rune('a'+i)) // same-package unexported field: wire injects it too
+		}
+		s.Fields = append(s.Fields, Field{Name: fname, Type: t})
 		req = append(req, t)
 	}
 	if len(s.Fields) == 0 {
@@ -623,7 +627,23 @@ func (g *wgen) assemble() {
 			continue
 		}
 		if inline && k == 1 {
-			direct = append(direct, WElem{Kind: "inline", Inline: es})
+			// inline sets may be nested several levels deep
+			depth := rapid.IntRange(1, 3).Draw(g.rt, "inlinedepth")
+			el := WElem{Kind: "inline", Inline: es}
+			for d := 1; d < depth && len(el.Inline) >= 2; d++ {
+				cut := rapid.IntRange(1, len(el.Inline)-1).Draw(g.rt, "inlinecut")
+				inner := WElem{Kind: "inline", Inline: append([]WElem{}, el.Inline[cut:]...)}
+				// deepen: the tail of the list moves one level down, recursively
+				rest := append([]WElem{}, el.Inline[:cut]...)
+				if d == 1 {
+					el = WElem{Kind: "inline", Inline: append(rest, inner)}
+				} else {
+					// wrap the whole thing once more
+					el = WElem{Kind: "inline", Inline: []WElem{el}}
+				}
+				w.AddFeature("inline-sets-deep")
+			}
+			direct = append(direct, el)
 			continue
 		}
 		w.Files[setFile].Sets = append(w.Files[setFile].Sets, WSet{Name: setNames[k], Elems: es})
